@@ -262,9 +262,13 @@ def get_finder_for(search_sid, config=None):
         _finders[config] = t
     return t.get(search_sid.type) or t.get('default')
 
+_getters = {}
+
 def get_getter_for(sid, attribute=None, config=None):
     from spil import GetFromPaths
-    return GetFromPaths()
+    if config not in _getters:
+        _getters[config] = GetFromPaths()      # built once per config: GetFromAll groups typed searches by Getter instance
+    return _getters[config]
 
 def get_writer_for(sid):
     raise NotImplementedError()
